@@ -14,7 +14,9 @@
 EXTENDS MIRSem, Json, Emit, IOUtils
 
 CONSTANTS NSlots,      \* number of random slots
-          Vocab        \* "int" | "all" : which template kinds are enabled
+          Vocab,       \* which template kinds are enabled
+          Lean         \* TRUE: no long-lived pointer registers and no global item (fewer loads that keep stores alive: the
+                       \* dead-store and alias reasoning of the optimiser is then exercised on the alloca templates)
 
 VARIABLES phase, slot, cur, body, slotpc, inputs, haveA
 bvars == <<phase, slot, cur, body, slotpc, inputs, haveA>>
@@ -23,9 +25,12 @@ allvars == <<prog, frames, mem, log, status, why, result, steps, phase, slot, cu
 (* ---------------- register file of main ---------------------------------- *)
 RBUF == 1   RFUEL == 8   RTMP == 9   RPA == 10   RTMP2 == 11
 IRegs == 2..7   DRegs == 12..14   FRegs == 15..16   LRegs == 17..18
-MainRegTy == <<"i", "i", "i", "i", "i", "i", "i", "i", "i", "i", "i", "d", "d", "d", "f", "f", "ld", "ld">>
+PRegs == 19..22   RPG == 23          \* pointers into the scratch area kept live over the whole body; address of gdat
+MainRegTy == <<"i", "i", "i", "i", "i", "i", "i", "i", "i", "i", "i", "d", "d", "d", "f", "f", "ld", "ld", "i", "i", "i", "i", "i">>
+             \o [i \in 1..NSlots |-> "i"]     \* one alloca pointer register per slot (24..): every such pointer has a single definition
 Reg(r) == [k |-> "reg", r |-> r]
 Imm(w) == [k |-> "imm", w |-> w]
+DRef == [k |-> "dref", b |-> 2]       \* address of the module's bss item gdat (memory block 2)
 Mem(ty, disp, base, idx, scale) == [k |-> "mem", ty |-> ty, disp |-> disp, base |-> base, idx |-> idx, scale |-> scale, al |-> ""]
 (* memory operand with an alias name: accesses with different non-empty alias names are promised not to overlap *)
 MemA(ty, disp, al) == [k |-> "mem", ty |-> ty, disp |-> disp, base |-> RBUF, idx |-> 0, scale |-> 1, al |-> al]
@@ -42,8 +47,15 @@ Prologue ==
   \o [i \in 1..2 |-> InsIn("ldmov", Reg(16 + i), <<Mem("ld", 80 + (16 * (i - 1)), RBUF, 0, 1)>>)]
   \o <<InsIn("mov", Reg(RFUEL), <<Imm(FromNat(FuelInit))>>), InsIn("mov", Reg(RTMP), <<Imm(Zero64)>>),
        InsIn("mov", Reg(RTMP2), <<Imm(Zero64)>>)>>
+  \o (IF Lean THEN <<>> ELSE
+      [i \in 1..4 |-> InsIn("add", Reg(18 + i), <<Reg(RBUF), Imm(FromNat(120 + (8 * i)))>>)]      \* p_i = buf + 128, 136, 144, 152
+      \o <<InsIn("mov", Reg(RPG), <<DRef>>),
+           InsIn("mov", Mem("i64", 0, RPG, 0, 1), <<Reg(2)>>), InsIn("mov", Mem("i64", 8, RPG, 0, 1), <<Reg(3)>>)>>)   \* gdat reset per call
 Epilogue ==
-  [i \in 1..6 |-> InsIn("mov", Mem("i64", 192 + (8 * (i - 1)), RBUF, 0, 1), <<Reg(i + 1)>>)]
+  (IF Lean THEN <<>> ELSE
+   <<InsIn("add", Reg(7), <<Reg(7), Mem("i64", 0, RPG, 0, 1)>>), InsIn("xor", Reg(6), <<Reg(6), Mem("i64", 8, RPG, 0, 1)>>)>>   \* gdat is observable
+   \o [i \in 1..4 |-> InsIn("add", Reg(5), <<Reg(5), Mem("u8", 0, 18 + i, 0, 1)>>)])                \* every p_i is still live here
+  \o [i \in 1..6 |-> InsIn("mov", Mem("i64", 192 + (8 * (i - 1)), RBUF, 0, 1), <<Reg(i + 1)>>)]
   \o [i \in 1..3 |-> InsIn("dmov", Mem("d", 240 + (8 * (i - 1)), RBUF, 0, 1), <<Reg(11 + i)>>)]
   \o [i \in 1..2 |-> InsIn("fmov", Mem("f", 264 + (4 * (i - 1)), RBUF, 0, 1), <<Reg(14 + i)>>)]
   \o [i \in 1..2 |-> InsIn("ldmov", Mem("ld", 272 + (16 * (i - 1)), RBUF, 0, 1), <<Reg(16 + i)>>)]
@@ -84,6 +96,37 @@ G5 == [name |-> "g5", params |-> <<"i64">>, res |-> <<"i64">>, regty |-> <<"i", 
                    InsIn("add", Reg(2), <<Reg(1), Reg(1)>>), InsIn("add", Reg(2), <<Reg(2), Imm(One64)>>),
                    [op |-> "ret", s |-> <<Reg(2)>>]>>]
 Ref(f) == [k |-> "ref", f |-> f]
+(* g6 (i64 a, i64 b) -> i16 : two returns, narrow result type (every ret must be narrowed, also after return merging) *)
+G6 == [name |-> "g6", params |-> <<"i64", "i64">>, res |-> <<"i16">>, regty |-> <<"i", "i">>,
+       insns |-> <<Br("bge", 3, <<Reg(1), Reg(2)>>), [op |-> "ret", s |-> <<Reg(1)>>],
+                   Br("beq", 5, <<Reg(2), Imm(FromNat(12345))>>), [op |-> "ret", s |-> <<Reg(2)>>],      \* both a and b leave through an early ret
+                   [op |-> "ret", s |-> <<Imm(FromNat(77))>>]>>]
+(* g9 (i64 a) -> i64 : inner callee with its own top-level alloca *)
+G9 == [name |-> "g9", params |-> <<"i64">>, res |-> <<"i64">>, regty |-> <<"i", "i", "i">>,
+       insns |-> <<[op |-> "alloca", d |-> Reg(2), s |-> <<Imm(FromNat(16))>>],
+                   InsIn("mov", Mem("i64", 0, 2, 0, 1), <<Reg(1)>>), InsIn("mov", Mem("i64", 8, 2, 0, 1), <<Imm(FromNat(5))>>),
+                   InsIn("add", Reg(3), <<Mem("i64", 0, 2, 0, 1), Mem("i64", 8, 2, 0, 1)>>), [op |-> "ret", s |-> <<Reg(3)>>]>>]
+(* g7 (i64 a) -> i64 : outer callee: alloca, calls g9, and uses its own buffer after the call (nested inlined frames) *)
+G7 == [name |-> "g7", params |-> <<"i64">>, res |-> <<"i64">>, regty |-> <<"i", "i", "i">>,
+       insns |-> <<[op |-> "alloca", d |-> Reg(2), s |-> <<Imm(FromNat(16))>>],
+                   InsIn("mov", Mem("i64", 8, 2, 0, 1), <<Reg(1)>>),
+                   InsIn("mov", Mem("i64", 0, 2, 0, 1), <<Imm(FromNat(1000))>>),
+                   [op |-> "call", callee |-> [k |-> "func", f |-> 10], res |-> <<Reg(3)>>, args |-> <<Reg(1)>>],
+                   InsIn("add", Reg(3), <<Reg(3), Mem("i64", 8, 2, 0, 1)>>), InsIn("add", Reg(3), <<Reg(3), Mem("i64", 0, 2, 0, 1)>>),
+                   [op |-> "ret", s |-> <<Reg(3)>>]>>]
+(* g8 () -> i64 : no arguments; increments the first word of the module's bss item gdat (memory block 2) *)
+G8 == [name |-> "g8", params |-> <<>>, res |-> <<"i64">>, regty |-> <<"i", "i">>,
+       insns |-> <<InsIn("mov", Reg(1), <<DRef>>), InsIn("add", Mem("i64", 0, 1, 0, 1), <<Mem("i64", 0, 1, 0, 1), Imm(FromNat(100))>>),
+                   InsIn("mov", Reg(2), <<Mem("i64", 0, 1, 0, 1)>>), [op |-> "ret", s |-> <<Reg(2)>>]>>]
+(* g10 (rblk:16 x, i64 v) : writes its results through the return block;  g11 (blk:16 x) -> i64 : by-value block, modifies its copy *)
+G10 == [name |-> "g10", params |-> <<"rblk16", "i64">>, res |-> <<>>, regty |-> <<"i", "i", "i">>,
+        insns |-> <<InsIn("mov", Mem("i64", 0, 1, 0, 1), <<Reg(2)>>), InsIn("add", Reg(3), <<Reg(2), Imm(FromNat(7))>>),
+                    InsIn("mov", Mem("i64", 8, 1, 0, 1), <<Reg(3)>>), [op |-> "ret", s |-> <<>>]>>]
+G11 == [name |-> "g11", params |-> <<"blk16">>, res |-> <<"i64">>, regty |-> <<"i", "i">>,
+        insns |-> <<InsIn("add", Reg(2), <<Mem("i64", 0, 1, 0, 1), Mem("i64", 8, 1, 0, 1)>>),
+                    InsIn("mov", Mem("i64", 0, 1, 0, 1), <<Imm(Zero64)>>), InsIn("mov", Mem("i64", 8, 1, 0, 1), <<Imm(Ones64)>>),
+                    [op |-> "ret", s |-> <<Reg(2)>>]>>]
+BlkArg(ty, r) == [k |-> "blk", ty |-> ty, r |-> r]
 
 (* ---------------- domains of template holes ------------------------------ *)
 SmallImms == {Zero64, One64, Ones64, FromNat(2), FromNat(3), FromNat(7), FromNat(255), FromNat(256), FromNat(65535),
@@ -116,17 +159,22 @@ BackSlots == 1..slot
 Fmts == {"d", "f", "ld"}
 Pfx(fmt) == fmt
 
-KindsInt == {"ibin", "iun", "shift", "div", "br2", "br1", "loop", "ovf", "switch", "callg1", "callg2", "ext", "alloca", "jmpi", "idx"}
+KindsInt == {"ibin", "iun", "shift", "div", "br2", "br1", "loop", "ovf", "switch", "callg1", "callg2", "ext", "alloca", "jmpi", "idx",
+             "pld", "pst", "alloca2", "gcall"}
 KindsFp == {"fbin", "fcmp", "fbr", "i2f", "f2i", "fmovm", "f2f", "callg3"}
 (* "link": the constructs MIR_link rewrites (calls to inline, allocas, jumps and branch chains, memory operands) *)
-KindsLink == {"callg1", "callg2", "callg3", "ext", "alloca", "br2", "br1", "loop", "switch", "ibin", "idx", "jmpi", "ovf", "calla"}
-Kinds == IF Vocab = "int" THEN KindsInt ELSE IF Vocab = "link" THEN KindsLink
+KindsLink == {"callg1", "callg2", "callg3", "ext", "alloca", "br2", "br1", "loop", "switch", "ibin", "idx", "jmpi", "ovf", "calla",
+              "callg6", "callg7", "gcall", "rblk", "blkv", "alloca2"}
+KindsOf == IF Vocab = "int" THEN KindsInt ELSE IF Vocab = "link" THEN KindsLink
          ELSE IF Vocab = "exec" THEN {"callg1", "callg2", "callg3", "calla", "ext", "icall", "icall5", "cb", "jmpi", "switch", "br2", "loop",
-                                      "ibin", "alloca", "fbin", "idx"}
+                                      "ibin", "alloca", "fbin", "idx", "callg6", "callg7", "gcall", "rblk", "blkv"}
          ELSE IF Vocab = "single" THEN (KindsInt \cup KindsFp \cup {"calla"}) \ {"callg3"}      \* functions with at most one result
-         ELSE KindsInt \cup KindsFp \cup {"calla"}
+         ELSE KindsInt \cup KindsFp \cup {"calla", "callg6", "callg7", "rblk", "blkv"}
+NeedFull == {"pld", "pst", "gcall"}
+Kinds == (IF Lean THEN KindsOf \ NeedFull ELSE KindsOf)
 
 (* holes of each kind, in order; a hole name selects its domain below *)
+PA == 23 + slot        \* the alloca pointer register of the current slot
 Holes(k) ==
   CASE k = "ibin" -> <<"safebin", "idst", "isrc", "isrc">>
     [] k = "iun" -> <<"iun", "idst", "isrc">>
@@ -155,6 +203,14 @@ Holes(k) ==
     [] k = "icall" -> <<"ireg", "isrc", "isrc">>
     [] k = "icall5" -> <<"ireg", "isrc">>
     [] k = "cb" -> <<"ireg", "extid", "isrc">>
+    [] k = "callg6" -> <<"ireg", "isrc", "isrc">>
+    [] k = "callg7" -> <<"ireg", "isrc">>
+    [] k = "gcall" -> <<"ireg", "ireg">>
+    [] k = "rblk" -> <<"ireg", "isrc">>
+    [] k = "blkv" -> <<"ireg", "isrc">>
+    [] k = "pld" -> <<"ireg", "imemty", "preg">>
+    [] k = "pst" -> <<"imemty", "preg", "isrc">>
+    [] k = "alloca2" -> <<"ireg", "isrc", "subld">>
 CurFmt == cur.vals[1]       \* for fp kinds the first hole is the format
 Dom(h) ==
   CASE h = "safebin" -> SafeBin [] h = "iun" -> IntUnary [] h = "idst" -> IDst [] h = "isrc" -> ISrc [] h = "isrcreg" -> ISrcReg
@@ -175,6 +231,8 @@ Dom(h) ==
     [] h = "fcmp" -> FpCmp
     [] h = "fdst" -> FDst(CurFmt) [] h = "fsrc" -> FSrc(CurFmt)
     [] h = "i2fop" -> {"i2", "ui2"}
+    [] h = "preg" -> PRegs
+    [] h = "subld" -> {Mem("u8", 12, PA, 0, 1), Mem("u16", 14, PA, 0, 1), Mem("i32", 12, PA, 0, 1), Mem("u8", 9, PA, 0, 1), Mem("i16", 10, PA, 0, 1)}
 
 (* instruction records of a filled template; labels are SLOT numbers until Finalize *)
 NextSlot == slot + 1
@@ -194,10 +252,10 @@ Render(k, v) ==
     [] k = "callg2" -> <<InsIn("and", Reg(RTMP), <<v[2], Imm(FromNat(7))>>),
                          [op |-> "call", callee |-> [k |-> "func", f |-> 3], res |-> <<v[1]>>, args |-> <<Reg(RTMP), v[3]>>]>>
     [] k = "ext" -> <<[op |-> "call", callee |-> [k |-> "ext"], res |-> <<v[1]>>, args |-> <<v[2], v[3]>>]>>
-    [] k = "alloca" -> <<[op |-> "alloca", d |-> Reg(RPA), s |-> <<v[1]>>],
-                         InsIn("mov", Mem("i64", 8, RPA, 0, 1), <<v[2]>>),
-                         InsIn("mov", Mem("i32", 4, RPA, 0, 1), <<Imm(FromNat(77))>>),
-                         InsIn("add", v[3], <<Mem("i64", 8, RPA, 0, 1), Mem("u32", 4, RPA, 0, 1)>>)>>
+    [] k = "alloca" -> <<[op |-> "alloca", d |-> Reg(PA), s |-> <<v[1]>>],
+                         InsIn("mov", Mem("i64", 8, PA, 0, 1), <<v[2]>>),
+                         InsIn("mov", Mem("i32", 4, PA, 0, 1), <<Imm(FromNat(77))>>),
+                         InsIn("add", v[3], <<Mem("i64", 8, PA, 0, 1), Mem("u32", 4, PA, 0, 1)>>)>>
     [] k = "jmpi" -> <<[op |-> "laddr", d |-> Reg(RTMP2), l |-> v[1]], [op |-> "jmpi", s |-> <<Reg(RTMP2)>>]>>
     [] k = "idx" -> <<InsIn("and", Reg(RTMP), <<v[1], Imm(FromNat(3))>>),
                       InsIn("mov", v[3], <<Mem(v[2], 128, RBUF, RTMP, v[4])>>)>>
@@ -210,6 +268,28 @@ Render(k, v) ==
     [] k = "f2f" -> <<InsIn(v[1] \o "2" \o v[2], Reg(CHOOSE r \in FpRegsOf(v[2]) : \A q \in FpRegsOf(v[2]) : r <= q), <<v[3]>>)>>
     [] k = "callg3" -> <<[op |-> "call", callee |-> [k |-> "func", f |-> 4], res |-> <<v[1], Reg(12)>>, args |-> <<v[2], Reg(13)>>]>>
     [] k = "calla" -> <<[op |-> "call", callee |-> [k |-> "func", f |-> 5], res |-> <<v[1]>>, args |-> <<v[2], v[3]>>]>>
+    [] k = "callg6" -> <<[op |-> "call", callee |-> [k |-> "func", f |-> 7], res |-> <<v[1]>>, args |-> <<v[2], v[3]>>]>>
+    [] k = "callg7" -> <<[op |-> "call", callee |-> [k |-> "func", f |-> 8], res |-> <<v[1]>>, args |-> <<v[2]>>]>>
+    \* load from the global, call a function without arguments that changes it, then the single use of the loaded value
+    [] k = "gcall" -> <<InsIn("mov", Reg(RTMP), <<Mem("i64", 0, RPG, 0, 1)>>),
+                        [op |-> "call", callee |-> [k |-> "func", f |-> 9], res |-> <<v[1]>>, args |-> <<>>],
+                        InsIn("add", v[2], <<Reg(RTMP), v[1]>>)>>
+    \* return-block argument: the callee writes through the caller's block;  by-value block: the caller's block is unchanged
+    [] k = "rblk" -> <<[op |-> "alloca", d |-> Reg(PA), s |-> <<Imm(FromNat(16))>>],
+                       InsIn("mov", Mem("i64", 0, PA, 0, 1), <<Imm(FromNat(3))>>), InsIn("mov", Mem("i64", 8, PA, 0, 1), <<Imm(FromNat(4))>>),
+                       [op |-> "call", callee |-> [k |-> "func", f |-> 11], res |-> <<>>, args |-> <<BlkArg("rblk16", PA), v[2]>>],
+                       InsIn("sub", v[1], <<Mem("i64", 8, PA, 0, 1), Mem("i64", 0, PA, 0, 1)>>),
+                       InsIn("add", v[1], <<v[1], Mem("i64", 0, PA, 0, 1)>>)>>
+    [] k = "blkv" -> <<[op |-> "alloca", d |-> Reg(PA), s |-> <<Imm(FromNat(16))>>],
+                       InsIn("mov", Mem("i64", 0, PA, 0, 1), <<v[2]>>), InsIn("mov", Mem("i64", 8, PA, 0, 1), <<Imm(FromNat(11))>>),
+                       [op |-> "call", callee |-> [k |-> "func", f |-> 12], res |-> <<v[1]>>, args |-> <<BlkArg("blk16", PA)>>],
+                       InsIn("add", v[1], <<v[1], Mem("i64", 8, PA, 0, 1)>>), InsIn("xor", v[1], <<v[1], Mem("i64", 0, PA, 0, 1)>>)>>
+    \* accesses through the long-lived pointer registers, zero displacement
+    [] k = "pld" -> <<InsIn("mov", v[1], <<Mem(v[2], 0, v[3], 0, 1)>>)>>
+    [] k = "pst" -> <<InsIn("mov", Mem(v[1], 0, v[2], 0, 1), <<v[3]>>)>>
+    \* alloca block written wide and read back narrower at an inner offset
+    [] k = "alloca2" -> <<[op |-> "alloca", d |-> Reg(PA), s |-> <<Imm(FromNat(32))>>],
+                          InsIn("mov", Mem("i64", 8, PA, 0, 1), <<v[2]>>), InsIn("mov", v[1], <<v[3]>>)>>
     \* indirect calls: the function address travels through a register
     [] k = "icall" -> <<InsIn("mov", Reg(RTMP2), <<Ref(2)>>),
                         [op |-> "call", callee |-> [k |-> "reg", r |-> RTMP2, f |-> 2], res |-> <<v[1]>>, args |-> <<v[2], v[3]>>]>>
@@ -282,10 +362,11 @@ MainFunc ==
 Finalize ==
   /\ phase = "build" /\ slot = NSlots + 1 /\ cur.kind = ""
   /\ phase' = "run"
-  /\ prog' = [funcs |-> <<MainFunc, G1, G2, G3, G4, G5>>]
-  /\ mem' = <<[sz |-> BufSize, live |-> TRUE, cells |-> InitBuf]>>
+  /\ prog' = [funcs |-> <<MainFunc, G1, G2, G3, G4, G5, G6, G7, G8, G9, G10, G11>>]
+  /\ mem' = <<[sz |-> BufSize, live |-> TRUE, cells |-> InitBuf],
+              [sz |-> 64, live |-> TRUE, cells |-> [i \in 1..64 |-> ByteC(0)]]>>          \* block 2: the module's bss item gdat
   /\ frames' = <<[f |-> 1, pc |-> 1, regs |-> [r \in 1..Len(MainRegTy) |-> IF r = 1 THEN PtrV(1, 0) ELSE UndefV],
-                  base |-> 1, ovf |-> NoOvf]>>
+                  base |-> 2, ovf |-> NoOvf]>>
   /\ status' = "run"
   /\ UNCHANGED <<log, why, result, steps, slot, cur, body, slotpc, inputs, haveA>>
 
